@@ -707,6 +707,14 @@ def validate(fmt, body, style, lenient_extra=False):
                     return ("bad", i, "field:" + fname)
                 if kind == "pos1" and int(c) < 1:
                     return ("bad", i, "field:" + fname)
+                if kind == "vcfinfo" and c != ".":
+                    # typed values: Integer / Float items must be numbers (keys the header does not declare are not judged)
+                    for item in c.split(";"):
+                        key, _, val = item.partition("=")
+                        if key in INFO_KEYS and INFO_KEYS[key][1] in ("Integer", "Float"):
+                            rx = _RX["sint"] if INFO_KEYS[key][1] == "Integer" else _RX["float"]
+                            if not val or any(not rx.match(v) for v in val.split(",")):
+                                return ("bad", i, "field:" + fname)
                 texts[fname] = c
             extra = []
             if has_rest:
